@@ -356,6 +356,21 @@ def check_spellings(res, B, elems, xs, case, sub, tol=1e-11):
             w_ = B.call("log", p)
             if np.all(np.isfinite(w_)):
                 judge("G.log(X)", lambda: G.log(E(p)), w_, info)
+        # copies of an element (a copy brings a copy of its group along) through the method AND through the module-level group's functions
+        for cname, cp in (("copy.copy", copy.copy), ("copy.deepcopy", copy.deepcopy)):
+            for opn, meth, gfn in (("inverse", lambda X: X.inverse().param, lambda X: G.inverse(X).param), ("Ad", lambda X: X.Ad(), lambda X: G.adjoint(X)),
+                                   ("log", lambda X: X.log().param, lambda X: G.log(X).param), ("g_left_jacobian", lambda X: X.left_jacobian(), lambda X: G.left_jacobian(X)),
+                                   ("g_right_jacobian", lambda X: X.right_jacobian(), lambda X: G.right_jacobian(X))):
+                if not have(opn):
+                    continue
+                try:
+                    w_ = B.call(opn, p)
+                except Exception:  # noqa: BLE001
+                    continue
+                if not np.all(np.isfinite(w_)):
+                    continue
+                judge("%s(X).%s()" % (cname, opn), lambda cp=cp, meth=meth: meth(cp(E(p))), w_, info)
+                judge("G.%s(%s(X))" % (opn, cname), lambda cp=cp, gfn=gfn: gfn(cp(E(p))), w_, info)
         if have("product") and not np.array_equal(p, q) and gutil.product_excluded(L_, p, q) is None:
             w_ = B.call("product", p, q)
             judge("G.product(X, Y)", lambda: G.product(E(p), E(q)), w_, dict(info, Y=np.asarray(q)))
